@@ -10,7 +10,7 @@ use std::f64::consts::PI;
 
 pub fn monitor() -> Monitor {
   Monitor { id: "C04",
-    rule: "cells: every cell of depths <= 3 (quick) / <= 6 (thorough); for every deeper depth up to 29 the class sample (4 corners, border runs, second ring, centre of each of the 12 base cells: all 12x8 seam situations) plus uniform cells. Oracle is geometric: stars of 96 evenly spaced points at 2e-3 cell around the 4 reference vertices and 4 reference edge midpoints, located by the independent reference point-location; edge star => the cell stored under that ordinal, vertex star minus the two adjacent edge cells => the cell (or None) stored under that cardinal. Non-trivial = cell on a base-cell border/corner/second ring, or with fewer than 8 neighbours.",
+    rule: "cells: every cell of depths <= 4 (quick) / <= 7 (thorough); for every deeper depth up to 29 the class sample (4 corners, border runs, second ring, centre of each of the 12 base cells: all 12x8 seam situations) plus uniform cells. Oracle is geometric: stars of 96 evenly spaced points at 2e-3 cell around the 4 reference vertices and 4 reference edge midpoints, located by the independent reference point-location; edge star => the cell stored under that ordinal, vertex star minus the two adjacent edge cells => the cell (or None) stored under that cardinal. Non-trivial = cell on a base-cell border/corner/second ring, or with fewer than 8 neighbours.",
     assumptions: &["reference point location (refm::ref_hash) — ambiguous star points (within 1e-7 cell of a border) are skipped; a cell with an unresolved star is inconclusive, not a violation"],
     run, replay }
 }
@@ -25,8 +25,8 @@ fn star(p: (f64, f64), eps: f64, n: usize) -> Vec<(f64, f64)> { (0..n).map(|k| p
 fn run(ctx: &mut Ctx, extra: &mut BTreeMap<String, String>) {
   let seed = ctx.seed;
   let small = ctx.pass != "release";
-  let exh = if ctx.thorough { if small { 4 } else { 6 } } else if small { 2 } else { 4 };
-  let n_cells = if ctx.thorough { if small { 200 } else { 3000 } } else if small { 20 } else { 500 };
+  let exh = if ctx.thorough { if small { 4 } else { 7 } } else if small { 2 } else { 4 };
+  let n_cells = if ctx.thorough { if small { 200 } else { 20000 } } else if small { 20 } else { 500 };
   extra.insert("exhaustive_up_to_depth".into(), format!("{}", exh));
   let shards = 16usize;
   run_sharded(ctx, shards, |c, k| {
